@@ -11,9 +11,12 @@ def build(tier, seed):
     items = []
     degs_i8 = [2, 3, 4, 5] if tier == "quick" else [2, 3, 4, 5, 6, 7, 8]
     degs_f = [2, 3, 4] if tier == "quick" else [2, 3, 4, 5, 6]
+    rep = ("Minstarapproxi8", "Aminstari8", "Minstarapproxi8JonesPartialHardLimitDeg1Clip", "Aminstari8PartialHardLimit")
     for t in arith.i8_types():
         n = t["name"]
         for d in degs_i8:
+            if tier == "quick" and d >= 5 and n not in rep:
+                continue
             w = (2.0 + d * d * 0.6) * (2.0 if t["amin"] else 1.0)
             items.append((Harness("c04_check_%s_d%d" % (n, d),
                                   {"type": n, "degree": d, "input": "%d messages, each every value in [-127,127]" % d,
@@ -24,6 +27,8 @@ def build(tier, seed):
         sign = "true" if base in ("Phi", "Tanh", "Minstarapprox") else "false"
         mag = "true" if base == "Minstarapprox" else "false"
         for d in degs_f:
+            if tier == "quick" and d >= 4 and f == "f32":
+                continue
             items.append((Harness("c04_check_%s_d%d" % (n, d),
                                   {"type": n, "degree": d, "input": "%d messages, every finite %s with |x| <= 1e30" % (d, f),
                                    "oracle": "one message per neighbour" + ("; sign = product of other signs" if sign == "true" else "") +
